@@ -17,7 +17,9 @@ Inductive ddef :=
 | BFStruct (nm : ident) (fl : list cfdef)            (* fields with their own comment lines / tags / deprecations *)
 | BFMessage (nm : ident) (fl : list cmfdef)
 | BFEnum (nm tname : ident) (uns : bool) (bits : N) (ml : list cedef)
-| BFUnion (nm : ident) (bl : list club).
+| BFUnion (nm : ident) (bl : list club)
+| BFRoStruct (nm : ident) (fl : list cfdef)
+| BFUEnum (nm : ident) (ml : list cedef).
 Definition ddef_ok (b : ddef) : Prop :=
   match b with
   | BStruct nm fl | BRoStruct nm fl => ident_ok nm /\ Forall tfdef_ok fl
@@ -31,6 +33,8 @@ Definition ddef_ok (b : ddef) : Prop :=
   | BFMessage nm fl => ident_ok nm /\ Forall cmfdef_ok fl /\ cmfs_ok [] (map bcm fl)
   | BFEnum nm tname uns bits ml => ident_ok nm /\ ident_ok tname /\ base_ok (ibytes tname) uns bits /\ Forall cedef_ok ml /\ Forall (cmember_ok uns bits) (map bce ml)
   | BFUnion nm bl => ident_ok nm /\ Forall club_ok bl /\ cubs_ok [] (map bcub bl) /\ bl <> []
+  | BFRoStruct nm fl => ident_ok nm /\ Forall cfdef_ok fl
+  | BFUEnum nm ml => ident_ok nm /\ Forall cedef_ok ml /\ Forall (cmember_ok true 32%N) (map bce ml)
   end.
 Definition ddef_base (b : ddef) : gbase :=
   match b with
@@ -39,6 +43,7 @@ Definition ddef_base (b : ddef) : gbase :=
   | BUEnum nm ml => b_uenum nm ml
   | BFStruct nm fl => b_cfstruct nm fl | BFMessage nm fl => b_cmmessage nm fl | BFEnum nm tname uns bits ml => b_cenum nm tname uns ml
   | BFUnion nm bl => b_cunion nm bl
+  | BFRoStruct nm fl => b_cfrostruct nm fl | BFUEnum nm ml => b_cuenum nm ml
   end.
 Definition ddef_x (b : ddef) : xitem :=
   match b with
@@ -47,10 +52,11 @@ Definition ddef_x (b : ddef) : xitem :=
   | BUEnum nm ml => e_x nm ml
   | BFStruct nm fl => cf_x nm fl | BFMessage nm fl => cmf_x nm fl | BFEnum nm tname uns bits ml => ce_x nm tname ml
   | BFUnion nm bl => cu_x nm bl
+  | BFRoStruct nm fl => cfr_x nm fl | BFUEnum nm ml => cue_x nm ml
   end.
 Lemma ddef_base_ok b : ddef_ok b -> gbase_ok (ddef_base b) (ddef_x b).
 Proof.
-  destruct b as [nm fl|nm fl|nm fl|nm fl|nm bl|nm tname uns bits ml|nm ml|nm fl|nm fl|nm tname uns bits ml|nm bl]; cbn [ddef_ok ddef_base ddef_x].
+  destruct b as [nm fl|nm fl|nm fl|nm fl|nm bl|nm tname uns bits ml|nm ml|nm fl|nm fl|nm tname uns bits ml|nm bl|nm fl|nm ml]; cbn [ddef_ok ddef_base ddef_x].
   - intros [A B]. now apply b_struct_ok.
   - intros [A B]. now apply b_rostruct_ok.
   - intros (A & B & C). now apply b_message_ok.
@@ -62,6 +68,8 @@ Proof.
   - intros (A & B & C). now apply b_cmmessage_ok.
   - intros (A & B & C & D & E). now apply (b_cenum_ok nm tname uns bits ml).
   - intros (A & B & C & D). now apply b_cunion_ok.
+  - intros [A B]. now apply b_cfrostruct_ok.
+  - intros (A & B & C). now apply b_cuenum_ok.
 Qed.
 
 Inductive sdefn :=
@@ -186,6 +194,7 @@ Definition structs_of (d : sdefn) : list struct_ :=
   | SDec P (BRoStruct nm fl) _ => [gstruct_of (dec_cmt P) (dec_opc P) true (ibytes nm) (map btf fl)]
   | SFDocStruct nm fl _ => [cstruct_of (ibytes nm) (map bcf fl)]
   | SDec P (BFStruct nm fl) _ => [gcstruct_of (dec_cmt P) (dec_opc P) (ibytes nm) (map bcf fl)]
+  | SDec P (BFRoStruct nm fl) _ => [gcrostruct_of (dec_cmt P) (dec_opc P) (ibytes nm) (map bcf fl)]
   | SEolStruct nm fl _ => [estruct_of (ibytes nm) (map bef fl)]
   | SFDocRoStruct nm fl _ => [cstruct_of_ro (ibytes nm) (map bcf fl)]
   | _ => []
@@ -210,6 +219,7 @@ Definition enums_of (d : sdefn) : list enum_ :=
   | SDec P (BUEnum nm ml) _ => [guenum_of (dec_cmt P) (ibytes nm) (map bem ml)]
   | SFDocEnum nm tname uns bits ml _ => [cenum_of (ibytes nm) (ibytes tname) uns (map bce ml)]
   | SDec P (BFEnum nm tname uns bits ml) _ => [gcenum_of (dec_cmt P) (ibytes nm) (ibytes tname) uns (map bce ml)]
+  | SDec P (BFUEnum nm ml) _ => [gcuenum_of (dec_cmt P) (ibytes nm) (map bce ml)]
   | SFDocUEnum nm ml _ => [cuenum_of (ibytes nm) (map bce ml)]
   | _ => []
   end.
@@ -240,7 +250,7 @@ Proof.
   { clear. induction dl as [|d dl IH]; intros f; [cbn; rewrite !app_nil_r; repeat split|].
     cbn [map gfile fold_left flat_map]. destruct (IH (it_upd (fst (xe_el (xel_of d))) f)) as (A & B & C & D & E & F & G0).
     unfold gfile in *. rewrite A, B, C, D, E, F, G0.
-    destruct d as [nm fl k|nm fl k|nm fl k|nm ml k|nm bl k|op nm fl k|op nm fl k|nm tname uns bits ml k|nm fl k|cs nm fl k|cs nm fl k|P [nm fl|nm fl|nm fl|nm fl|nm bl|nm tname uns bits ml|nm ml|nm fl|nm fl|nm tname uns bits ml|nm bl] k|path k|nm fl k|nm fl k|nm tname uns bits ml k|nm fl k|nm ml k|nm fl k|nm bl k]; cbn [xel_of xe_el fst snd b_cunion cu_item cue_item cfr_item ef_item b_cfstruct b_cmmessage b_cenum cf_item cmf_item ce_item st_item rt_item mt_item e_item u_item os_item om_item te_item md_item cs_item cm_item dec_item ddef_base b_struct b_rostruct b_message b_dmessage b_union b_enum b_uenum gb_upd i_item add_import imports_of it_upd add_struct add_message add_enum add_union structs messages enums unions consts imports gopackage app structs_of messages_of enums_of unions_of];
+    destruct d as [nm fl k|nm fl k|nm fl k|nm ml k|nm bl k|op nm fl k|op nm fl k|nm tname uns bits ml k|nm fl k|cs nm fl k|cs nm fl k|P [nm fl|nm fl|nm fl|nm fl|nm bl|nm tname uns bits ml|nm ml|nm fl|nm fl|nm tname uns bits ml|nm bl|nm fl|nm ml] k|path k|nm fl k|nm fl k|nm tname uns bits ml k|nm fl k|nm ml k|nm fl k|nm bl k]; cbn [xel_of xe_el fst snd b_cfrostruct b_cuenum b_cunion cu_item cue_item cfr_item ef_item b_cfstruct b_cmmessage b_cenum cf_item cmf_item ce_item st_item rt_item mt_item e_item u_item os_item om_item te_item md_item cs_item cm_item dec_item ddef_base b_struct b_rostruct b_message b_dmessage b_union b_enum b_uenum gb_upd i_item add_import imports_of it_upd add_struct add_message add_enum add_union structs messages enums unions consts imports gopackage app structs_of messages_of enums_of unions_of];
       rewrite <- ?app_assoc, ?app_nil_r; repeat split; reflexivity. }
   destruct (G dl file0) as (A & B & C & D & E & F & G0). cbn [file0 structs messages enums unions consts imports gopackage app] in *. repeat split; assumption.
 Qed.
